@@ -4,7 +4,7 @@ import z3
 from pyvc.sym import SInt, SBool, SRef, SFunc, Ref, NONE, IntArr, LoopSpec, Unsupported, Raised
 from pyvc.verify import FnContract
 from pyvc import builtins as B
-from .common import view, class_const, SeqView
+from .common import view, class_const, SeqView, overflow_keeps_order
 
 
 # ---------------------------------------------------------------- ghost sequences (logs)
@@ -55,9 +55,11 @@ def ld_append(it, fn, args, kwargs):
         c.hset(d, '$items', z3.Store(old.items, old.len, x))
         c.hset(d, '$len', old.len + 1)
     else:
-        # full: the new event is kept at the back, which pending event is displaced is not specified
+        # full: the new event is kept at the back, one pending event is displaced (which one is not specified),
+        # the others keep their order
         A = c.fresh('ld_over', IntArr)
         c.hset(d, '$items', z3.Store(A, old.len - 1, x))
+        c.assume(overflow_keeps_order(old, view(it, d), x, True))
     _tokens_after_put(c, q, c.hget(d, '$len'))
     return None
 
@@ -74,6 +76,7 @@ def ld_appendleft(it, fn, args, kwargs):
     else:
         A = c.fresh('ld_over', IntArr)
         c.hset(d, '$items', z3.Store(A, 0, x))
+        c.assume(overflow_keeps_order(old, view(it, d), x, False))
     _tokens_after_put(c, q, c.hget(d, '$len'))
     return None
 
